@@ -110,6 +110,12 @@ CLAIMED = {
         "Real arithmetic; np.linalg.inv is a parameter with contract 'exact inverse' (at Real: Mathlib's inverse). The phase objectives freeze the other subspaces and point estimates exactly as the code does (V phase: x = z = 0; U phase: y fixed, z = 0; D phase: x, y fixed).",
         "§6 C09",
     ),
+    "C10": (
+        "Lean 4 theorems: project is the unique solution of the posterior normal equations and the posterior mode, zero statistics give the zero vector, sigma >= floor after every M-step, E-step additivity / partition independence, and EM monotonicity of the model's T update (fixed sigma: linGaussEM_monotone) and of the joint T + sigma update with floor (linGaussEM_sigma_monotone) via identification of the code-shaped model with the abstract linear-Gaussian EM step; Float model vs project / e_step / m_step / fit",
+        "Proof for all UBMs, T, positive covariances, statistics with non-negative fractional counts in which every component is observed by some statistic, all i-vector dimensions; update_sigma case under floor > 0 and incoming sigma >= floor. Tie: projections, E-step accumulators, one M-step and 1-3 iteration fits (seeded T0) incl. zero-count components and floor-driven covariances.",
+        "Real arithmetic; np.linalg.inv/solve parameters with contract 'exact'. Components never observed are outside the monotonicity theorem's guard (they contribute a constant); their handling (keep sigma) is C10_sigma_floor + correspondence. Found and fixed D8.",
+        "§6 C10",
+    ),
 }
 
 NOT_YET = "check not built yet in this round (see DESIGN.md §8 order of work); not claimed"
